@@ -585,15 +585,28 @@ pub fn run(cfg: &Cfg, rep: &mut Report) {
             check_int_literal(t, e, rep);
         }
     }
-    deep_and_histories(&mut rng, cfg.per_shard(2_000, 80_000), rep);
     let n_values = cfg.per_shard(150_000, 6_000_000);
+    let mut deep_done = false;
     for i in 0..n_values {
-        if i % 256 == 0 && deadline.over() {
-            break;
+        // the deep nestings come after a first portion of ordinary values: should a reader be pathologically slow on deep
+        // texts, what the ordinary values showed is already in the checkpointed report when the watchdog ends the worker
+        if !deep_done && (i == 2_000 || i + 1 == n_values) {
+            deep_done = true;
+            cfg.checkpoint(rep);
+            deep_and_histories(&mut rng, cfg.per_shard(2_000, 80_000), rep);
+        }
+        if i % 256 == 0 {
+            if deadline.over() {
+                break;
+            }
+            cfg.checkpoint(rep);
         }
         let depth = rng.below(4);
         let v = gen_value(&mut rng, depth);
         check_value(&v, rep);
+    }
+    if !deep_done {
+        deep_and_histories(&mut rng, cfg.per_shard(2_000, 80_000), rep);
     }
     let n_lits = cfg.per_shard(150_000, 6_000_000);
     for i in 0..n_lits {
